@@ -21,6 +21,14 @@ for nb in (1, 2):
            unwind=5, cex_unwind=5, timeout=900, tier="quick" if quick else "thorough",
            defines=[f"H4V_NBC={nb}", "H4V_MAXPOS=8", "H4V_MAXLEN=3", f"H4V_CASE={case}"], **HB)
 
+# HLPwrite: bounded block walk with creation of missing blocks/tables (slow: thorough tier)
+for nb, nt in [(1, 3), (2, 2)]:
+    ob(f"HLPwrite_nb{nb}_nt{nt}", ["C01", "C02", "C14", "C16"], entry="h_HLPwrite", enforce="HLPwrite", mode="bounded",
+       bound=f"<= {nt} block tables (existing or created) of number_blocks == {nb}, first_length 0..2, block_length 1..2, posn <= 6, "
+             f"length -1..6 (symbolic), missing blocks arbitrary, faults injected at every sub-access",
+       unwind=5, cex_unwind=5, timeout=2400, tier="thorough", flags=["--sat-solver", "cadical"], backend="cbmc SAT (cadical)",
+       defines=[f"H4V_NBC={nb}", f"H4V_NT={nt}", "H4V_MAXPOS=6", "H4V_MAXLEN=2"], **HB)
+
 # HLconvert: ownership of the caller's access record (C13), write-access gate (C14), result of the promotion (C01/C02)
 CAD = dict(flags=["--sat-solver", "cadical"], backend="cbmc SAT (cadical)")
 for case, txt, tier in [(1, "valid arguments, writable file, no fault: the conversion has to succeed", "quick"),
@@ -42,3 +50,20 @@ ob("HLInewlink", ["C01", "C02"], entry="h_HLInewlink", enforce="HLInewlink", mod
    unwind=6, cex_unwind=6, defines=["H4V_NB=4"], **CAD, **HB)
 ob("HLInewlink_nb0", ["C01", "C02"], entry="h_HLInewlink_nb0", enforce=None, mode="bounded",
    bound="number_blocks == 0 (accepted by HLcreate/HLconvert); memory safety only", unwind=6, cex_unwind=6, **HB)
+
+# ------------------------------------------------------------------------------------------ hextelt.c (external elements)
+HX = dict(unit="hextelt_u.c", file="hdf/src/hextelt.c", objbits=10, cex_unwind=4, replace=["HXIbuildfilename"],
+          trusted=["two-stream ghost disk of the external file (stubs/hextelt_stdio.h)",
+                   "HAatom_object/HTPinquire/HPseek/HP_write/hi_close_stdio stubs (units/hextelt_u.c)",
+                   "HXIbuildfilename replaced by the contract 'NULL or a fresh string' (file-name handling is outside the properties)",
+                   "HEpush/HEreport/HEclear (stubs/h4v_err.h)"])
+ob("HXPseek", ["C01"], entry="h_HXPseek", enforce="HXPseek", **HX)
+for case, txt in [(1, "position inside the element, posn + length <= INT32_MAX"), (2, "position inside the element, posn + length > INT32_MAX"),
+                  (3, "position exactly at the end"), (4, "position beyond the end (HXPseek allows it)")]:
+    ob(f"HXPread_c{case}", ["C01", "C16"] + (["C20"] if case == 2 else []), entry="h_HXPread", enforce="HXPread",
+       region=txt, defines=[f"H4V_CASE={case}"], **HX)
+for case, txt in [(1, "no fault, stream held is writable, write ends at a representable offset"),
+                  (2, "stream held was opened read-only and/or stdio faults (retry path)"),
+                  (3, "faults of the header update in the HDF file only"), (4, "write would end beyond 2^31-1")]:
+    ob(f"HXPwrite_c{case}", ["C01", "C14", "C16"] + (["C20"] if case == 4 else []), entry="h_HXPwrite", enforce="HXPwrite",
+       region=txt, defines=[f"H4V_CASE={case}"], **HX)
